@@ -320,17 +320,20 @@ def finish(ctx, level, coverage, assumptions):
 
 # --------------------------------------------------------------------------- trace validation (V)
 
-def validate_trace(ctx, module, constants, trace_path, name, timeout=900, extra_env=None, xmx="4g"):
+def validate_trace(ctx, module, constants, trace_path, name, timeout=900, extra_env=None, xmx="4g", invariants=()):
     """Runs a Trace_* module over an NDJSON file (env TRACE).  Returns
     dict(accepted, rejected (payload of the first unmatched event or None), states, wall_s)."""
-    cfg = cfg_text(constants=constants, postcondition="Accepted")
+    cfg = cfg_text(constants=constants, postcondition="Accepted", invariants=invariants)
     env = {"TRACE": trace_path}
     if extra_env:
         env.update(extra_env)
     parsed, text = run_tlc(ctx, module, cfg, name, workers=1, timeout=timeout, env=env, dfs_queue=True,
                            xss="1g", xmx=xmx)
     rejected = None
+    fails = []
     for line in text.splitlines():
+        if line.startswith('<<"FAILS", '):
+            fails = json.loads(json.loads(line[len('<<"FAILS", '):-2]))["events"]
         if line.startswith('<<"REJECTED", '):
             try:
                 rejected = json.loads(json.loads(line[len('<<"REJECTED", '):-2]))
@@ -339,8 +342,8 @@ def validate_trace(ctx, module, constants, trace_path, name, timeout=900, extra_
     accepted = rejected is None and parsed["distinct"] is not None and "Error:" not in text
     if not accepted and rejected is None:
         raise ToolError("trace validation of %s failed without a REJECTED line:\n%s" % (name, "\n".join(text.splitlines()[-30:])))
-    return {"accepted": accepted, "rejected": rejected, "states": parsed["distinct"], "wall_s": parsed["wall_s"],
-            "cmd": parsed["cmd"]}
+    return {"accepted": accepted, "rejected": rejected, "fails": fails, "states": parsed["distinct"],
+            "wall_s": parsed["wall_s"], "cmd": parsed["cmd"]}
 
 
 def count_lines(path):
